@@ -56,6 +56,7 @@ def stepOp (rw : Rune → Int) (v : SimVariant) (enc : Encoder) (s : Sim) (op : 
   | ["F", r, st] => ({ s with back := s.back.fillV v.fillZW rw (toInt! r) (Cb.parseStyle st) }, none)
   | ["Y", st] => ({ s with style := Cb.parseStyle st }, none)
   | ["C", x, y] => (s.setCursor (toInt! x) (toInt! y), none)
+  | ["D"] => (s.hideCursorApi, none)
   | ["W"] => (s.showScr v enc, none)
   | ["N"] => (s.sync v enc, none)
   | ["Z", w, h] => (s.setSize v (toInt! w) (toInt! h), none)
